@@ -10,37 +10,52 @@ PID = "C10"
 IMPORTS = "From OV Require Import Model.Roots."
 MODEL_VO = ["Model/Roots.vo"]
 RULE = ("polynomials of degree 1..12 over f64 and Complex<f64>, each with and without refinement: built from prescribed roots "
-        "(separated, zero, repeated, clustered, conjugate pairs, purely imaginary), random coefficients of mixed sign and scale "
-        "(ratio <= 1e6) with vanishing constant/inner coefficients, closed-form special branches (b = 0, c = 0, d0 = 0, triple root), "
-        "degree 0 and the empty coefficient list; distinct = distinct executor line; non-trivial = degree >= 2")
-TRUSTED = ["Coq 8.16.1 kernel + vm_compute (primitive binary64)", "Rust executor /verif/harness (kind roots.solve)",
-           "the cfg(ohsl_verif) recording hook in src/complex/elementary.rs: the logged (argument, result) bits of Complex::sqrt/pow/polar are taken as what libm returned",
-           "python driver (generators, exact Fraction evaluation of p(z), comparators)",
+        "(separated, zero, repeated, clustered, conjugate pairs, purely imaginary; exact rational roots, coefficients exact in f64 "
+        "where possible), random coefficients of mixed sign and scale (ratio <= 1e6) with vanishing constant/inner coefficients, "
+        "closed-form special branches (b = 0, c = 0, d0 = 0, d1 purely imaginary, triple root), quadratics/cubics with coefficient "
+        "magnitudes 1e-3..1e3 and real-/imaginary-dominated phases, sparse x^n + a x^k + b, degree 0 and the empty coefficient list; "
+        "distinct = distinct executor line; non-trivial = degree >= 2")
+TRUSTED = ["Coq 8.16.1 kernel + vm_compute (primitive binary64)", "Rust executor /verif/harness (kind roots.solve; harness/build.rs detects the hook)",
+           "the cfg(ohsl_verif) recording hook in src/complex/elementary.rs (/repo commit 05bbbd0): the logged (argument, result) bits of "
+           "Complex::sqrt/pow/polar are taken as what libm returned",
+           "python driver (generators, exact Fraction evaluation of p(z), comparators, classification of failing inputs by the model's trace)",
            "hand-written Gallina model coq/Model/Roots.v tied to src/polynomial/mod.rs:190-347 by bit-for-bit differential execution",
            "driver/translate.py (LAGUER_MR, LAGUER_MT, frac[] regenerated from the source on every run)"]
 ASSUMPTIONS = ["Rust semantics of Vec/usize/f64 as modelled (IEEE-754 binary64, no fused multiply-add, round-to-nearest)",
                "the three libm-backed primitives are an oracle table recorded from the implementation's own run, not modelled",
                "accuracy of the returned roots (backward error) and convergence of Laguerre's iteration are searched, not proved; "
-               "three failure classes are recorded known findings (KF-C10-A/B/C)"]
-UNPROVED = ["normwise backward error of the returned values in f64 (tie + search; false of the code for classes KF-C10-A/B/C)",
+               "five failure classes are recorded known findings (KF-C10-A/B/C/E/F)"]
+UNPROVED = ["normwise backward error of the returned values in f64 (tie + search; false of the code on the classes KF-C10-A/B/C/E/F)",
             "convergence of Laguerre's iteration (false of the code from x = 0 on nearly symmetric deflated polynomials: KF-C10-A)",
-            "one-to-one correspondence with the true roots (search on well-conditioned prescribed-root families)"]
+            "one-to-one correspondence with the true roots (search on well-conditioned prescribed-root families)",
+            "that libm's sqrt/pow return square/cube roots (hypotheses of quadratic_factors / cubic_factors; in the tie they are recorded values)"]
 
 MANIFEST = dict(
-    text=("Proved in Coq for the executable model coq/Model/Roots.v (one definition, instantiated at an abstract field for the "
-          "theorems and at IEEE binary64 + recorded libm calls for the tie): poly_solve returns exactly n values for every degree "
-          "n >= 1 and rejects degree 0 (roots_length, degree0_rejected); the linear, quadratic (both sign choices, and the repaired "
-          "q = 0 branch) and Cardano formulas (incl. the triple-root branch) factor the polynomial exactly over any field "
-          "(linear_root, quadratic_factors, quadratic_q0, cubic_factors, cubic_triple); laguer's inner loop computes "
-          "(p(x), p'(x), p''(x)/2) (horner_triple); forward deflation satisfies p(t) = (t-x) q(t) + p(x) (deflate_spec); laguer makes at "
-          "most MAXIT-1 iterations for any input over any arithmetic, MAXIT regenerated from the source (laguer_bounded). "
-          "NOT proved: that the returned floating-point values are accurate roots, and that Laguerre's iteration converges -- "
-          "both are false of the code on three recorded classes of inputs (KF-C10-A exhaustion, KF-C10-B polishing a zero root, "
-          "KF-C10-C unpolished deflation drift). Those halves are covered by a bit-for-bit tie of the float model to the "
-          "implementation on every generated case and by a failing-input search with the property statement as oracle."),
-    note="partial: closed forms/structure proved exactly; float accuracy and convergence by tie + search; 3 open known findings",
-    technique="Coq proof (abstract field, nsatz/field) + differential execution of the float model with an oracle table for libm calls",
-    design="DESIGN.md section 7 (C10), 8 (KF-C10-A/B/C), 9 (hook)")
+    text=("Proved in Coq (18 theorems, all closed under the global context) for the executable model coq/Model/Roots.v -- ONE definition, "
+          "instantiated at an abstract field for the closed forms and at IEEE binary64 + the recorded libm calls for the tie. "
+          "For every arithmetic (floats included): poly_solve returns exactly n values for degree n >= 1 and rejects degree 0 "
+          "(roots_length, degree0_rejected); laguer makes at most MAXIT-1 passes, MAXIT regenerated from the source, and an Exhausted exit "
+          "has used all of them (laguer_bounded, laguer_exhausted_full); a Converged exit means the code's own test |p(x)| <= EPS*err held "
+          "at the returned iterate (laguer_converged_small); the number of laguer calls is n (degree >= 4) + n (refine) (trace_length); "
+          "refine = true passes EVERY unpolished value through laguer on the undeflated polynomial (refine_polishes_all), and a polished "
+          "value whose call exits Converged passes the smallness test on the undeflated polynomial (polished_converged); the snapping rule "
+          "(snap_cases). Over any commutative ring: laguer's inner loop computes (p(x), p'(x), p''(x)/2), identified by the Taylor expansion "
+          "(horner_triple, taylor_expansion); one deflation is p(t) = (t-x) q(t) + p(x) (deflate_spec); the whole deflation phase recomposes "
+          "p exactly from the values found and one residual per value, hence p = a_n prod (t - x_j) when the residuals vanish "
+          "(deflation_recomposes). Over any field with 2, 3 invertible: the linear, quadratic (either sign choice; the repaired q = 0 "
+          "branch, where the legacy code divides by zero; totality) and Cardano formulas (either sign test, incl. the triple-root branch) "
+          "return THE roots with multiplicity, provided the square-root and cube-root primitives return square/cube roots "
+          "(linear_root, quadratic_factors, quadratic_q0, quadratic_total, cubic_factors). "
+          "Legacy: quadratic_legacy_refuted, cubic_sign_legacy_refuted (vm_compute on the committed witnesses). "
+          "NOT proved: that the floating-point values returned are accurate roots, and that Laguerre's iteration converges -- both are "
+          "false of the code on five recorded classes of inputs (KF-C10-A exhaustion, -B polishing a zero root, -C unpolished deflation "
+          "drift, -E overflow of |p(x)| in the convergence test, -F cancellation in the Cardano path). Those halves are covered by a "
+          "bit-for-bit tie of the float model to the implementation on every generated case (the three libm primitives as a recorded "
+          "oracle table) and by a failing-input search with the property statement as oracle; a failing input is downgraded to a known "
+          "finding only if the model reproduces the implementation bit for bit on it and the model's trace shows the recorded cause."),
+    note="partial: structure and closed forms proved exactly; float accuracy and convergence by tie + search; 5 open known findings",
+    technique="Coq proof (abstract ring/field, loop invariants, field/ring) + differential execution of the float model with an oracle table for libm calls",
+    design="DESIGN.md section 7 (C10), 8 (KF-C10-A/B/C), 9 (hook); findings/C10-known-findings.txt (KF-C10-E, -F)")
 
 THETA_POLISHED = 1e-12
 THETA_UNPOLISHED = 1e-10
@@ -182,7 +197,7 @@ def generate(rng, tier):
     # --- prescribed roots
     g = rng.fork("prescribed")
     fams = ["separated-real", "separated-complex", "zero-roots", "repeated", "clustered", "conjugate", "imaginary"]
-    reps = 2 if quick else 14
+    reps = 2 if quick else 11
     for fam in fams:
         for deg in range(1, 13):
             for t in range(reps):
@@ -196,7 +211,7 @@ def generate(rng, tier):
                 both(cases, elt, coeffs, "roots-" + fam, prescribed=rs if exact else None)
     # --- random coefficients, mixed sign/scale, vanishing constant and inner coefficients
     g = rng.fork("random")
-    reps = 8 if quick else 90
+    reps = 8 if quick else 70
     for cplx in (False, True):
         for deg in range(1, 13):
             for t in range(reps):
@@ -205,7 +220,7 @@ def generate(rng, tier):
                 both(cases, 'cplx' if cplx else 'f64', c, "random-" + ("cplx" if cplx else "real") + ("-deg<=3" if deg <= 3 else ""))
     # --- closed-form branches
     g = rng.fork("closed")
-    reps = 6 if quick else 60
+    reps = 6 if quick else 50
     for t in range(reps):
         a, b, c, d = [float(g.range(-6, 6)) for _ in range(4)]
         if a == 0: a = 1.0
@@ -224,7 +239,7 @@ def generate(rng, tier):
             both(cases, 'cplx', co, "closed-" + name)
     # --- closed forms with coefficient magnitudes up to ratio 1e6 and every phase pattern (real-, imaginary-dominated)
     g = rng.fork("closed-scaled")
-    reps = 40 if quick else 500
+    reps = 40 if quick else 400
     def ph(g, mag):
         k = g.below(5)
         x = (1.0 + g.below(9)) * mag * (1 if g.chance(1, 2) else -1)
@@ -244,7 +259,7 @@ def generate(rng, tier):
         else: both(cases, 'cplx', co, "closed-scaled-cplx")
     # --- sparse polynomials x^n + a x^k + b (vanishing inner coefficients), real and complex
     g = rng.fork("sparse")
-    reps = 4 if quick else 40
+    reps = 4 if quick else 32
     for deg in range(4, 13):
         for t in range(reps):
             k = g.range(1, deg - 1)
@@ -413,8 +428,26 @@ def classify(case, items, kind, root=None):
         return "KF-C10-C"
     return None
 
+KEY_COUNTS = {}
+
 def finding_key(case, desc, items):
     if items is None: return None
     kr = FAILS.get(case.line)
     if kr is None: return None
-    return classify(case, items, kr[0], kr[1])
+    k = classify(case, items, kr[0], kr[1])
+    KEY_COUNTS[str(k)] = KEY_COUNTS.get(str(k), 0) + 1
+    return k
+
+def extra_coverage():
+    """measured: the recorded libm calls that drove the model, and how the failing inputs were classified"""
+    cache = LazyTerm.cache or {}
+    logs = [len(a["log"] or []) for a in cache.values()]
+    nohook = sum(1 for a in cache.values() if a.get("nohook"))
+    byfail = {}
+    for ln, (kind, root) in FAILS.items():
+        byfail[kind] = byfail.get(kind, 0) + 1
+    return {"libm_calls_recorded": sum(logs), "cases_with_oracle_table": sum(1 for n in logs if n > 0),
+            "largest_oracle_table": max(logs) if logs else 0, "executor_without_hook_cases": nohook,
+            "oracle_failures_by_kind": byfail, "oracle_failures_by_known_finding_key": dict(KEY_COUNTS),
+            "thresholds": {"theta_polished": THETA_POLISHED, "theta_unpolished": THETA_UNPOLISHED,
+                           "matching": "1e-6 * max(1,|r|) when separation >= 0.1 and kappa * theta <= 1e-7"}}
